@@ -28,6 +28,7 @@ CONSTANTS
   EqWrongs = {}
   CallKinds <- Calls_all
   MaxCalls = 3
+  Laws = {"mass"}
 INVARIANT RegistryIndependent
 INVARIANT WrittenIsPhysical
 INVARIANT RefusedOnlyIfWrongDimension
